@@ -470,3 +470,23 @@ def gen_run_retry_case(rng):
     for _ in range(rng.randint(1, 4)):
         inp += w * rng.randint(1, 4) + rng.choice([d, d, e, e, d + e, 'q', ''])
     return [mode], inp
+
+
+def gen_tie_ladder_case(rng):
+    """Ties at SEVERAL lengths inside one token: literal prefixes of a word, the word itself and class repetitions that
+    match the same prefixes, in any priority order ("ties go to the pattern listed first" must be decided against the
+    candidate actually recorded at that length, not against the winner of an earlier, shorter tie)."""
+    letters = rng.choice([['a', 'b', 'c', 'd'], ['a', 'b', 'c', 'd'], ['ä', 'ö', 'ü', 'a']])
+    w = ''.join(rng.choice(letters) for _ in range(rng.randint(3, 6)))
+    cls = '[' + ''.join(esc_cls(c) for c in letters) + ']'
+    cuts = sorted(set(rng.randint(1, len(w)) for _ in range(rng.randint(2, 3))) | {len(w)})
+    pats = [''.join(esc(c) for c in w[:c]) for c in cuts]
+    pats += rng.sample([cls + '+', cls + '{%d}' % rng.choice(cuts), cls + '{1,%d}' % len(w), cls + '*' + esc(w[-1]),
+                        ''.join(esc(c) for c in w[:cuts[0]]) + cls + '*'], rng.randint(1, 3))
+    pats = list(dict.fromkeys(pats))
+    rng.shuffle(pats)
+    toks = rng.sample(range(0, 40), len(pats))
+    mode = {'name': 'M0', 'patterns': [{'p': p, 't': t} for p, t in zip(pats, toks)], 'transitions': []}
+    parts = [w, w[:rng.choice(cuts)], w + rng.choice(letters), w[:-1] + 'x', w]
+    rng.shuffle(parts)
+    return [mode], ' '.join(parts[:rng.randint(2, 5)])
